@@ -465,3 +465,40 @@ func (f *FnCFG) ExitReachableAvoiding(from ast.Node, avoid []ast.Node, skip func
 	}
 	return false, nil
 }
+
+// EndReachableAvoiding reports whether the end of the function (a block without successors: explicit return or
+// falling off the end) can be reached from entry without executing a CFG node containing one of the avoid nodes.
+func (f *FnCFG) EndReachableAvoiding(avoid []ast.Node) bool {
+	contains := func(outer, inner ast.Node) bool { return outer.Pos() <= inner.Pos() && inner.End() <= outer.End() }
+	seen := map[int32]bool{0: true}
+	work := []int32{0}
+	for len(work) > 0 {
+		b := work[len(work)-1]
+		work = work[:len(work)-1]
+		blk := f.G.Blocks[b]
+		killed := false
+		for _, n := range blk.Nodes {
+			for _, a := range avoid {
+				if contains(n, a) {
+					killed = true
+				}
+			}
+			if killed {
+				break
+			}
+		}
+		if killed {
+			continue
+		}
+		if len(blk.Succs) == 0 {
+			return true
+		}
+		for _, s := range blk.Succs {
+			if !seen[s.Index] {
+				seen[s.Index] = true
+				work = append(work, s.Index)
+			}
+		}
+	}
+	return false
+}
